@@ -69,9 +69,17 @@ TReload == /\ IsEvent("reload") /\ Ev.err = ""
                  /\ UNCHANGED <<m, log, env>>
            /\ rebase' = Loaded(env.kind) /\ UNCHANGED hist
 (* the in-memory map's volume becomes read-only: same .idx served from a sorted file *)
-TFreeze == /\ IsEvent("freeze") /\ Ev.err = "" /\ Strict /\ env.kind = "mem"
+(* C05-key-alias, continued: a tombstone written for an aliased delete carries the key that was
+   asked for, not the key that was hit; a loader with exact lookups ignores it and the entry
+   that the compact map had deleted is live again *)
+Resurrected == {k \in Keys : ~IsLive(k) /\ ExactLast(log, k).st = "live"}
+TFreeze == /\ IsEvent("freeze") /\ Ev.err = "" /\ env.kind = "mem"
+           /\ \/ Strict /\ UNCHANGED m
+              \/ /\ Deviate("C05-key-alias") /\ Resurrected # {}
+                 /\ \E i \in 1..Len(log) : log[i].t = "tomb" /\ log[i].eff # log[i].k
+                 /\ m' = [k \in Keys |-> IF k \in Resurrected THEN ExactLast(log, k) ELSE m[k]]
            /\ env' = [env EXCEPT !.kind = "sorted"] /\ rebase' = TRUE
-           /\ UNCHANGED <<m, cnt, log, hist>>
+           /\ UNCHANGED <<cnt, log, hist>>
 
 TraceNext == TraceReset \/ TraceSkip \/ TPut \/ TFill \/ TDel \/ TGet \/ TSnap \/ TCnt \/ TReload \/ TFreeze
 TraceSpec == TraceInit /\ [][TraceNext]_tvars
